@@ -38,6 +38,8 @@ def main():
         for s in seeds:
             sd = os.path.join(SEEDED, s)
             v = s.rsplit("-", 1)[1]
+            if v.startswith("r2"):
+                v = v[2:]       # round-2 demos were written for SEED/A and SEED/B
             log = "/tmp/cf_%s_%s.log" % (worker, s)
             open(log, "w").close()
             subprocess.run("git checkout HEAD -- . && git clean -fdq -e target", shell=True, cwd=wt)
